@@ -26,6 +26,9 @@ var tplLib string
 //go:embed tpl/probe.go.txt
 var tplProbe string
 
+//go:embed tpl/libtypes.go.txt
+var tplLibTypes string
+
 // LibPkg is one fixture library package.
 type LibPkg struct {
 	Path string // import path, e.g. fx/lib
@@ -52,10 +55,11 @@ var Libs = []LibPkg{
 const LocalID = "."
 
 type Universe struct {
-	Dir   string
-	seq   int
-	Race  bool
-	Stats struct {
+	Dir       string
+	TypesOnly bool
+	seq       int
+	Race      bool
+	Stats     struct {
 		Builds, Rebuilds, ProbeRuns int
 		BuildTime, ProbeTime        time.Duration
 	}
@@ -72,6 +76,87 @@ func helpersRequire(repoDir string) (string, error) {
 		return "", fmt.Errorf("gontainer-helpers requirement not found in %s/go.mod", repoDir)
 	}
 	return m[1] + " " + m[2], nil
+}
+
+// NewTypesOnlyUniverse writes a variant of the module in which the user packages
+// declare types only (no functions, variables or constants): stub output must
+// compile against it.
+func NewTypesOnlyUniverse(dir, repoDir string) (*Universe, error) {
+	u, err := NewUniverse(dir, repoDir)
+	if err != nil {
+		return nil, err
+	}
+	u.TypesOnly = true
+	for _, l := range Libs {
+		src := strings.ReplaceAll(tplLibTypes, "PKGNAME", l.Name)
+		if err := os.WriteFile(filepath.Join(dir, strings.TrimPrefix(l.Path, "fx/"), "lib.go"), []byte(src), 0o644); err != nil {
+			return nil, err
+		}
+	}
+	return u, nil
+}
+
+// CompileOnly writes the containers (generated file + types-only local catalog, no
+// probe registration) and compiles them with the given tags; fills CompileErr.
+func (u *Universe) CompileOnly(cs []*Container, tags string) error {
+	defer func() {
+		for _, c := range cs {
+			_ = os.RemoveAll(filepath.Join(u.Dir, "g", c.Name))
+		}
+	}()
+	var pkgs []string
+	for _, c := range cs {
+		d := filepath.Join(u.Dir, "g", c.Name)
+		if err := os.MkdirAll(d, 0o755); err != nil {
+			return err
+		}
+		if err := os.WriteFile(filepath.Join(d, "gen.go"), c.Source, 0o644); err != nil {
+			return err
+		}
+		local := strings.ReplaceAll(tplLibTypes, "PKGNAME", c.Pkg)
+		if err := os.WriteFile(filepath.Join(d, "local.go"), []byte(local), 0o644); err != nil {
+			return err
+		}
+		pkgs = append(pkgs, "./g/"+c.Name)
+	}
+	args := []string{"build"}
+	if tags != "" {
+		args = append(args, "-tags", tags)
+	}
+	args = append(args, pkgs...)
+	cmd := exec.Command("go", args...)
+	cmd.Dir = u.Dir
+	cmd.Env = u.goEnv()
+	out, err := cmd.CombinedOutput()
+	u.Stats.Builds++
+	if err == nil {
+		return nil
+	}
+	text := string(out)
+	failed := map[string][]string{}
+	cur := ""
+	for _, ln := range strings.Split(text, "\n") {
+		if m := rePkgLine.FindStringSubmatch(ln); m != nil {
+			cur = m[1]
+			continue
+		}
+		if m := reCompileErr.FindStringSubmatch(ln); m != nil {
+			failed[m[1]] = append(failed[m[1]], ln)
+			continue
+		}
+		if cur != "" && strings.TrimSpace(ln) != "" && !strings.HasPrefix(ln, "# ") {
+			failed[cur] = append(failed[cur], ln)
+		}
+	}
+	if len(failed) == 0 {
+		return fmt.Errorf("go build failed and the failure cannot be attributed:\n%s", text)
+	}
+	for _, c := range cs {
+		if e, ok := failed[c.Name]; ok {
+			c.CompileErr = strings.Join(e, "\n")
+		}
+	}
+	return nil
 }
 
 // NewUniverse writes the module below dir.
@@ -123,13 +208,13 @@ func LocalSource(pkg string) string {
 
 // Container is one generated package to be built and probed.
 type Container struct {
-	Name   string // registry and directory name, unique within the universe
-	Pkg    string // expected package clause
-	Type   string // expected container type
-	Ctor   string // expected constructor
-	Source []byte // the tool's output
-	Script any    // probe.Script (JSON-marshalled as is)
-	NoLocal bool  // do not add the local catalog (the package declares nothing else)
+	Name    string // registry and directory name, unique within the universe
+	Pkg     string // expected package clause
+	Type    string // expected container type
+	Ctor    string // expected constructor
+	Source  []byte // the tool's output
+	Script  any    // probe.Script (JSON-marshalled as is)
+	NoLocal bool   // do not add the local catalog (the package declares nothing else)
 
 	// results
 	CompileErr string
@@ -252,6 +337,20 @@ func (u *Universe) BuildBatch(cs []*Container, tags string) error {
 			return err
 		}
 	}
+	// packages that do not exist are a loader error, which `go build` reports a few at a
+	// time: find them up front
+	keep := func(in []*Container) []*Container {
+		var out []*Container
+		for _, c := range in {
+			if msg := u.unknownImports(c.Source); msg != "" {
+				c.CompileErr = msg
+				continue
+			}
+			out = append(out, c)
+		}
+		return out
+	}
+	lib, mains = keep(lib), keep(mains)
 	if len(lib) > 0 {
 		if err := u.buildAndRun(lib, tags, false); err != nil {
 			return err
@@ -263,6 +362,41 @@ func (u *Universe) BuildBatch(cs []*Container, tags string) error {
 		}
 	}
 	return nil
+}
+
+var stdAllowed = map[string]bool{"context": true, "errors": true, "fmt": true, "os": true, "reflect": true, "strconv": true, "math": true, "strings": true}
+
+var reImportLine = regexp.MustCompile(`(?m)^\s*(?:[A-Za-z_][A-Za-z0-9_]*\s+)?"([^"]+)"\s*$`)
+
+// unknownImports returns a compile-error text if the source imports a package that does not exist.
+func (u *Universe) unknownImports(src []byte) string {
+	text := string(src)
+	i := strings.Index(text, "import (")
+	if i < 0 {
+		return ""
+	}
+	j := strings.Index(text[i:], "\n)")
+	if j < 0 {
+		return ""
+	}
+	var bad []string
+	for _, m := range reImportLine.FindAllStringSubmatch(text[i:i+j], -1) {
+		p := m[1]
+		switch {
+		case stdAllowed[p]:
+		case strings.HasPrefix(p, "github.com/gontainer/gontainer-helpers/v3/"):
+		case strings.HasPrefix(p, "fx/"):
+			if _, err := os.Stat(filepath.Join(u.Dir, strings.TrimPrefix(p, "fx/"))); err != nil {
+				bad = append(bad, p)
+			}
+		default:
+			bad = append(bad, p)
+		}
+	}
+	if len(bad) > 0 {
+		return "gen.go: package " + strings.Join(bad, ", ") + " does not exist (imported by the generated file)"
+	}
+	return ""
 }
 
 func (u *Universe) write(c *Container) error {
@@ -377,7 +511,7 @@ func (u *Universe) buildAndRun(cs []*Container, tags string, isMain bool) error 
 			return fmt.Errorf("go build failed and the failure cannot be attributed to a generated container:\n%s", text)
 		}
 		live = next
-		if attempt > 6 {
+		if attempt > 12 {
 			return fmt.Errorf("go build: too many attempts:\n%s", text)
 		}
 	}
